@@ -218,32 +218,69 @@ theorem tight_plainDrop {c : Cfg} (hP : 0 < c.P) {m : Mach} {v : PVec} {dp : Per
   have t' : TightL c.P m.k (⟨zeroizeV v, dp, false⟩ :: R) := tight_setvec t rfl rfl
   exact tight_vecDrop (b := ⟨zeroizeV v, dp, false⟩) t' (g'.ok _ (by simp)) rfl
 
+/-- permission / lock flag of the data pages after `Zeroize for Protected` with the recorded modes `lm`, `pm` -/
+def wipePerm (pm : PM) (dp : Perm) : Perm := if pm = .rw then dp else .rw
+def wipeLock (lm : LM) (dl : Bool) : Bool := if lm = .locked then false else dl
+
+theorem good_protAtWipe {c : Cfg} (hP : 0 < c.P) {m : Mach} {v : PVec} {dp : Perm} {dl : Bool}
+    {R : List Blk} (g : GoodL c.P m.k (⟨v, dp, dl⟩ :: R)) (pm : PM) :
+    GoodL c.P (protAtWipe c m v pm).k (⟨v, wipePerm pm dp, dl⟩ :: R) := by
+  unfold protAtWipe wipePerm
+  by_cases h1 : pm = .rw <;> simp only [h1, if_true, if_false]
+  · exact g
+  · exact good_mprotect hP g .rw
+
+theorem tight_protAtWipe {c : Cfg} (hP : 0 < c.P) {m : Mach} {v : PVec} {dp : Perm} {dl : Bool}
+    {R : List Blk} (t : TightL c.P m.k (⟨v, dp, dl⟩ :: R)) (hl : v.len ≤ v.cap) (pm : PM) (p' : Perm) (l' : Bool) :
+    TightL c.P (protAtWipe c m v pm).k (⟨v, p', l'⟩ :: R) := by
+  unfold protAtWipe
+  by_cases h1 : pm = .rw <;> simp only [h1, if_true, if_false]
+  · exact tight_setvec t rfl rfl
+  · exact tight_mprotect hP t hl _ _ _
+
+theorem good_protZeroize {c : Cfg} (hP : 0 < c.P) {m : Mach} {v : PVec} {dp : Perm} {dl : Bool}
+    {R : List Blk} (g : GoodL c.P m.k (⟨v, dp, dl⟩ :: R)) (lm : LM) (pm : PM) :
+    GoodL c.P (protZeroize c m v lm pm).1.k (⟨zeroizeV v, wipePerm pm dp, wipeLock lm dl⟩ :: R) := by
+  have g1 := good_protAtWipe hP g pm
+  have g2 := good_setbuf (v' := zeroizeV v) hP g1 rfl rfl rfl (by simp [zeroizeV, wipeN_length])
+  unfold protZeroize wipeLock
+  by_cases h2 : lm = .locked <;> simp only [h2, if_true, if_false]
+  · exact good_munlock hP g2
+  · exact g2
+
+theorem tight_protZeroize {c : Cfg} (hP : 0 < c.P) {m : Mach} {v : PVec} {dp : Perm} {dl : Bool}
+    {R : List Blk} (t : TightL c.P m.k (⟨v, dp, dl⟩ :: R)) (hl : v.len ≤ v.cap) (lm : LM) (pm : PM)
+    (p' : Perm) (l' : Bool) :
+    TightL c.P (protZeroize c m v lm pm).1.k (⟨zeroizeV v, p', l'⟩ :: R) := by
+  have t1 := tight_protAtWipe hP t hl pm p' l'
+  have t2 : TightL c.P (protAtWipe c m v pm).k (⟨zeroizeV v, p', l'⟩ :: R) := tight_setvec t1 rfl rfl
+  unfold protZeroize
+  by_cases h2 : lm = .locked <;> simp only [h2, if_true, if_false]
+  · exact tight_munlock hP t2 hl _ _
+  · exact t2
+
 theorem good_protDrop {c : Cfg} (hP : 0 < c.P) {m : Mach} {v : PVec} {dp : Perm} {dl : Bool}
     {R : List Blk} (g : GoodL c.P m.k (⟨v, dp, dl⟩ :: R)) (lm : LM) (pm : PM) :
     GoodL c.P (protDrop c m v lm pm).k R := by
   unfold protDrop
-  by_cases h1 : pm = .rw <;> by_cases h2 : lm = .locked <;> simp only [h1, h2, if_true, if_false]
-  · exact good_plainDrop hP (good_munlock hP g)
-  · exact good_plainDrop hP g
-  · exact good_plainDrop hP (good_munlock hP (good_mprotect hP g .rw))
-  · exact good_plainDrop hP (good_mprotect hP g .rw)
+  exact good_plainDrop hP (good_protZeroize hP g lm pm)
 
 theorem tight_protDrop {c : Cfg} (hP : 0 < c.P) {m : Mach} {v : PVec} {dp : Perm} {dl : Bool}
     {R : List Blk} (t : TightL c.P m.k (⟨v, dp, dl⟩ :: R)) (g : GoodL c.P m.k (⟨v, dp, dl⟩ :: R))
     (lm : LM) (pm : PM) (hl : dl = true → lm = .locked) :
     TightL c.P (protDrop c m v lm pm).k R := by
   have hlen : v.len ≤ v.cap := (g.ok _ (List.mem_cons_self)).lenle
+  have g1 := good_protZeroize hP g lm pm
+  have hw : wipeLock lm dl = false := by
+    unfold wipeLock
+    by_cases h2 : lm = .locked
+    · simp [h2]
+    · cases dl
+      · simp
+      · exact absurd (hl rfl) h2
+  rw [hw] at g1
   unfold protDrop
-  by_cases h1 : pm = .rw <;> by_cases h2 : lm = .locked <;> simp only [h1, h2, if_true, if_false]
-  · exact tight_plainDrop hP (tight_munlock hP t hlen _ _) (good_munlock hP g)
-  · have : dl = false := by cases dl <;> simp_all
-    subst this
-    exact tight_plainDrop hP t g
-  · exact tight_plainDrop hP (tight_munlock hP (tight_mprotect hP t hlen .rw .rw dl) hlen _ _)
-      (good_munlock hP (good_mprotect hP g .rw))
-  · have : dl = false := by cases dl <;> simp_all
-    subst this
-    exact tight_plainDrop hP (tight_mprotect hP t hlen .rw .rw false) (good_mprotect hP g .rw)
+  exact tight_plainDrop hP (tight_protZeroize hP t hlen lm pm _ _) g1
 
 theorem good_objDrop {c : Cfg} (hP : 0 < c.P) {m : Mach} {o : Obj} {dp : Perm} {dl : Bool}
     {R : List Blk} (g : GoodL c.P m.k (⟨o.v, dp, dl⟩ :: R)) : GoodL c.P (objDrop c m o).k R := by
@@ -255,7 +292,7 @@ theorem good_objDrop {c : Cfg} (hP : 0 < c.P) {m : Mach} {o : Obj} {dp : Perm} {
 /-! ### the lock transition -/
 
 theorem good_lockV {c : Cfg} (hP : 0 < c.P) {m : Mach} {v : PVec} {dp : Perm}
-    {R : List Blk} (g : GoodL c.P m.k (⟨v, dp, false⟩ :: R)) (pm : PM) :
+    {R : List Blk} (g : GoodL c.P m.k (⟨v, dp, false⟩ :: R)) (pm : LM × PM) :
     ((lockV c m v pm).2 = true → GoodL c.P (lockV c m v pm).1.k (⟨v, dp, true⟩ :: R)) ∧
     ((lockV c m v pm).2 = false → GoodL c.P (lockV c m v pm).1.k R) := by
   have h := good_dryocMlock hP g
@@ -268,7 +305,7 @@ theorem good_lockV {c : Cfg} (hP : 0 < c.P) {m : Mach} {v : PVec} {dp : Perm}
 
 theorem tight_lockV {c : Cfg} (hP : 0 < c.P) {m : Mach} {v : PVec} {dp : Perm}
     {R : List Blk} (t : TightL c.P m.k (⟨v, dp, false⟩ :: R)) (g : GoodL c.P m.k (⟨v, dp, false⟩ :: R))
-    (pm : PM) (hdp : c.undo = true ∨ dp ≠ .none ∨ v.len = 0) :
+    (pm : LM × PM) (hdp : c.undo = true ∨ dp ≠ .none ∨ v.len = 0) :
     ((lockV c m v pm).2 = true → TightL c.P (lockV c m v pm).1.k (⟨v, dp, true⟩ :: R)) ∧
     ((lockV c m v pm).2 = false → TightL c.P (lockV c m v pm).1.k R) := by
   have h := good_dryocMlock hP g
@@ -309,17 +346,17 @@ theorem tight_newBytes {c : Cfg} (hP : 0 < c.P) {m : Mach} {R : List Blk} (t : T
 /-! ### resize of a locked region -/
 
 theorem good_lockedResize {c : Cfg} (hP : 0 < c.P) {m : Mach} {v : PVec} {dl : Bool}
-    {R : List Blk} (g : GoodL c.P m.k (⟨v, .rw, dl⟩ :: R)) (n : Nat) :
-    match (lockedResize c m v n).2 with
-    | none => GoodL c.P (lockedResize c m v n).1.k (⟨v, .rw, dl⟩ :: R)
-    | some nv => GoodL c.P (lockedResize c m v n).1.k (⟨nv, .rw, true⟩ :: R) := by
-  have g1 := good_vecResize hP (good_add_empty hP g .rw false) n
-  have g2 := good_lockV hP g1 .rw
+    {R : List Blk} (g : GoodL c.P m.k (⟨v, .rw, dl⟩ :: R)) (rc : LM × PM) (n : Nat) (b : UInt8 := 0) :
+    match (lockedResize c m v rc n b).2 with
+    | none => GoodL c.P (lockedResize c m v rc n b).1.k (⟨v, .rw, dl⟩ :: R)
+    | some nv => GoodL c.P (lockedResize c m v rc n b).1.k (⟨nv, .rw, true⟩ :: R) := by
+  have g1 := good_vecResize hP (good_add_empty hP g .rw false) n b
+  have g2 := good_lockV hP g1 recNew
   unfold lockedResize
-  by_cases hr : (lockV c (vecResize c m PVec.empty n).1 (vecResize c m PVec.empty n).2 .rw).2 = true
+  by_cases hr : (lockV c (vecResize c m PVec.empty n b).1 (vecResize c m PVec.empty n b).2 recNew).2 = true
   · simp only [hr, if_true]
     have g3 := g2.1 hr
-    have g4 := good_setbuf (v' := writeV (vecResize c m PVec.empty n).2 (v.data.take n)) hP g3
+    have g4 := good_setbuf (v' := writeV (vecResize c m PVec.empty n b).2 (v.data.take n)) hP g3
       rfl rfl rfl (writeV_buf_length _ _)
     exact good_protDrop hP (g4.perm (List.Perm.swap _ _ _)) _ _
   · simp only [hr]
@@ -327,25 +364,24 @@ theorem good_lockedResize {c : Cfg} (hP : 0 < c.P) {m : Mach} {v : PVec} {dl : B
 
 theorem tight_lockedResize {c : Cfg} (hP : 0 < c.P) {m : Mach} {v : PVec} {dl : Bool}
     {R : List Blk} (t : TightL c.P m.k (⟨v, .rw, dl⟩ :: R)) (g : GoodL c.P m.k (⟨v, .rw, dl⟩ :: R))
-    (n : Nat) :
-    match (lockedResize c m v n).2 with
-    | none => TightL c.P (lockedResize c m v n).1.k (⟨v, .rw, dl⟩ :: R)
-    | some nv => TightL c.P (lockedResize c m v n).1.k (⟨nv, .rw, true⟩ :: R) := by
+    (rc : LM × PM) (hrc : dl = true → rc.1 = .locked) (n : Nat) (b : UInt8 := 0) :
+    match (lockedResize c m v rc n b).2 with
+    | none => TightL c.P (lockedResize c m v rc n b).1.k (⟨v, .rw, dl⟩ :: R)
+    | some nv => TightL c.P (lockedResize c m v rc n b).1.k (⟨nv, .rw, true⟩ :: R) := by
   have g0 := good_add_empty hP g .rw false
-  have g1 := good_vecResize hP g0 n
-  have t1 := tight_vecResize (tight_add t ⟨PVec.empty, .rw, false⟩) g0 hP n
-  have g2 := good_lockV hP g1 .rw
-  have t2 := tight_lockV hP t1 g1 .rw (Or.inr (Or.inl (by simp)))
+  have g1 := good_vecResize hP g0 n b
+  have t1 := tight_vecResize (tight_add t ⟨PVec.empty, .rw, false⟩) g0 hP n b
+  have g2 := good_lockV hP g1 recNew
+  have t2 := tight_lockV hP t1 g1 recNew (Or.inr (Or.inl (by simp)))
   unfold lockedResize
-  by_cases hr : (lockV c (vecResize c m PVec.empty n).1 (vecResize c m PVec.empty n).2 .rw).2 = true
+  by_cases hr : (lockV c (vecResize c m PVec.empty n b).1 (vecResize c m PVec.empty n b).2 recNew).2 = true
   · simp only [hr, if_true]
     have g3 := g2.1 hr
-    have g4 := good_setbuf (v' := writeV (vecResize c m PVec.empty n).2 (v.data.take n)) hP g3
+    have g4 := good_setbuf (v' := writeV (vecResize c m PVec.empty n b).2 (v.data.take n)) hP g3
       rfl rfl rfl (writeV_buf_length _ _)
-    have t4 : TightL c.P _ (⟨writeV (vecResize c m PVec.empty n).2 (v.data.take n), .rw, true⟩ ::
+    have t4 : TightL c.P _ (⟨writeV (vecResize c m PVec.empty n b).2 (v.data.take n), .rw, true⟩ ::
         ⟨v, .rw, dl⟩ :: R) := tight_setvec (t2.1 hr) rfl rfl
-    exact tight_protDrop hP (t4.perm (List.Perm.swap _ _ _)) (g4.perm (List.Perm.swap _ _ _)) _ _
-      (fun _ => rfl)
+    exact tight_protDrop hP (t4.perm (List.Perm.swap _ _ _)) (g4.perm (List.Perm.swap _ _ _)) _ _ hrc
   · simp only [hr]
     exact t2.2 (by simpa using hr)
 
